@@ -427,8 +427,8 @@ class Scenario(dict):
 
     def resolve(self):
         """coverage-directed choice of the seed: for scenarios that `want` a rare event on their default
-        path (an empty shell removed at the end of exploration) the seeds seed, seed+1, ... are tried
-        until the event occurs (deterministic; at most 10 tries, else the base seed is used and the
+        path (`removed`: an empty shell removed at the end of exploration; `removed2`: at least two of them) the
+        seeds seed, seed+1, ... are tried until the event occurs (deterministic; at most 10 | 24 tries, else the base seed is used and the
         evidence says that the event was not met)"""
         if not self['want']:
             return self
@@ -436,7 +436,8 @@ class Scenario(dict):
         LOG['on'] = False
         try:
             base = self['seed']
-            for k in range(10):
+            need = 2 if self['want'] == 'removed2' else 1
+            for k in range(10 if need == 1 else 24):
                 self['seed'] = base + k
                 s = self.build()
                 mx = 0
@@ -445,7 +446,7 @@ class Scenario(dict):
                     mx = max(mx, len(s.bounds))
                     if done or s.explored:
                         break
-                if self['want'] == 'removed' and len(s.bounds) < mx:
+                if self['want'] in ('removed', 'removed2') and mx - len(s.bounds) >= need:
                     self['want'] = None
                     return self
             # the event is rare for this configuration and seed range: the scenario is still a valid
